@@ -307,6 +307,8 @@ impl<H: Hal, T: Transport, const RX_BUFFER_SIZE: usize>
             if let Some(event) = self.poll()? {
                 return Ok(event);
             } else {
+                #[cfg(virtio_drivers_verif)]
+                crate::verif_hooks::spin(crate::verif_hooks::SPIN_VSOCK_WAIT_EVENT);
                 spin_loop();
             }
         }
